@@ -9,13 +9,17 @@ INTERIM = "interim level until coq/Properties/%s.v holds the pinned theorems; " 
 NOTE_PR = ("theorems in coq/Properties/%s.v re-checked by coqc on every run with Print Assumptions audited (closed under the global context); "
            "the model they speak about is tied to /repo by the correspondence run of the same check; %s; " + TB)
 
-claim("C01", TV, TECH_TV,
-      "Executable Coq model of issuer, holder and verifier compared stage by stage with the implementation on generated flows, plus the "
-      "extracted specification (selected view) evaluated on the implementation's output. Proved so far (coq/Proofs): the issuer emits "
-      "payload_of/disclosures_of of a digest tree whose flags are the marking (IssuerBuild), the verifier's unpacking computes exactly the view "
-      "of that tree for any disclosure list (UnpackView), the codec law (DisclosureCodec); the holder half and the end-to-end composition are "
-      "not yet pinned, hence the level.",
-      INTERIM % "C01")
+claim("C01", PR, TECH_PR,
+      "Theorems C01_roundtrip_compact / _json / _kb / _kb_json: for every claims object, strategy, decoy flag, signing algorithm, randomness, "
+      "format, key-binding setting and type-consistent selection, the issued SD-JWT is accepted by the holder, the presentation is exactly the "
+      "issuer-signed JWT with the designated disclosures (and the KB-JWT), the verifier accepts it, and the verified claims equal — up to member "
+      "order — the issued claims with exactly the hidden nodes not designated by the selection erased (+cnf); select-nothing, select-all and "
+      "no-marker corollaries; the tree's hidden flags, the view and the designation are tied to the position-level specifications of Spec/Path.v "
+      "and Spec/View.v (C01_marking_is_spec, C01_view_is_spec, C01_designated_is_spec). Composes IssuerBuild, WalkSel, UnpackView, the codec law "
+      "(DisclosureCodec, JsonRoundtrip) and the JWT layer. The run executes honest flows on the implementation and the model and evaluates the "
+      "extracted specification on the implementation's output.",
+      NOTE_PR % ("C01", "premises (Proofs/RoundTrip.v oracle_ok, rng_ok, claims_ok, jwt_claims_ok): injective digest oracle, own signatures verify and contain no separator, "
+                 "pairwise distinct plain 22-character salts, claims within the property's quantifier (scalar strings, JSON number lexemes, no _sd_alg / aud, exp in the window, nesting <= 126)"))
 claim("C02", PR, TECH_PR,
       "Theorem C02_accept_implies_verified: for every input, acceptance implies that the signature oracle accepted exactly the presented "
       "header.payload text under the resolver's key for the unverified iss, with the header's algorithm (known name, key's family), and that "
@@ -73,3 +77,51 @@ claim("C16", PR, TECH_PR,
       "runs of spaces and non-BMP characters (C16_values_preserved*). The run (harness built with the feature) checks consumption, "
       "byte-identity over repeated issuances, value recovery through holder and verifier, and byte-for-byte agreement with the model.",
       NOTE_PR % ("C16", "scope of the queue: pairwise distinct salts over the base64url alphabet (DESIGN.md 6 C16); nesting depth < 127 for the codec law"))
+
+claim("C03", PR, TECH_PR,
+      "Theorem C03_any_disclosure_list: for a genuine credential (digest tree D with digests_ok, injective H, codec law) and ANY list of "
+      "strings accepted by create_hash_mappings — none hashing to a decoy digest — the verifier's unpacking returns exactly view_d(opened L) D: a "
+      "hidden claim appears iff its genuine disclosure string is in the list and so are its hidden ancestors'; the result depends only on the set "
+      "of strings (C03_same_set, C03_permutation); a repeated string is rejected (C03_repeat_rejected). The run hand-assembles presentations from "
+      "subsets, permutations, altered / re-serialized / re-padded / truncated / forged / foreign / duplicated / garbage disclosures and judges "
+      "the implementation against the extracted `view`.",
+      NOTE_PR % ("C03", "premises: H injective, secrecy of decoy pre-images (no presented string hashes to a decoy digest)"))
+claim("C04", PR, TECH_PR,
+      "Theorem C04_kb_enforced: acceptance with expected aud and nonce, in both formats, implies a KB-JWT of type kb+jwt verified by the oracle "
+      "under the key of the VERIFIED payload's cnf.jwk, naming that nonce and audience, whose sd_hash is the digest of exactly the presented "
+      "jwt~d1~..~dn~; with an injective digest oracle the hashed text determines JWT and disclosure sequence (C04_sd_hash_binds, "
+      "C04_kb_replay_compact); one of aud/nonce alone is an error; honest key-bound presentations are accepted (C01_roundtrip_kb*). The run "
+      "executes the property's attack list with the real cryptography.",
+      NOTE_PR % ("C04", "cryptographic strength of signatures is outside the model (the oracle's answer is what is bound); H injective for the replay corollaries"))
+claim("C07", PR, TECH_PR,
+      "Theorem C07_no_panic: every model entry point returns Ok or Err on ANY input — no Panic, no OutOfFuel (the model marks every unchecked "
+      "index / unwrap of the Rust code as Panic and uses fuel only where recursion is not structural); Unmodelled only in eight listed dialect "
+      "corners; termination of unpacking on adversarial input by pigeonhole (C07_unpack_fuel_enough); parser fuel adequate. Partial: stack "
+      "exhaustion and panics inside dependencies are runtime facts; the run covers them by executing garbage, grammar-based, mutated, "
+      "validly-signed-malformed, wild-selection and odd issuer inputs under catch_unwind + watchdog and comparing outcome classes with the model.",
+      NOTE_PR % ("C07", "PARTIAL: stack depth, dependency panics and non-termination inside serde_json / base64 / jsonwebtoken / ring are observed, not proved"))
+claim("C08", PR, TECH_PR,
+      "Theorem C08_verify_refines_spec: whenever the verifier returns claims, for any input, they are exactly the result of the draft-07 8.1 "
+      "disclosure-processing algorithm (Spec/Draft07.v) on the verified payload and the presented disclosures; never more lenient "
+      "(C08_never_more_lenient); each MUST-reject of the property proved directly for all inputs (duplicate digests anywhere, wrong arity / kind, "
+      "reserved or colliding names, foreign _sd_alg). The run signs arbitrary payloads itself and judges the implementation against the "
+      "extracted specification.",
+      NOTE_PR % ("C08", "the restatement of draft-07 8.1 in Spec/Draft07.v is trusted (written from the property's MUST list)"))
+claim("C10", PR, TECH_PR,
+      "Theorem C10_verify_transcode: for EVERY abstract presentation — honest or tampered — the verifier makes the same decision and returns "
+      "the same claims on its compact text and on its JSON text (kb_jwt absent / null / string, unknown extra members), in both directions and "
+      "for any JSON spelling (C10_verify_json_to_compact, C10_verify_compact_to_json); holders built from either form select the same "
+      "disclosures. The run transcodes honest and tampered inputs (C02-C04 generators) both ways on the implementation.",
+      NOTE_PR % ("C10", "side condition: parts expressible in both formats (no '~' in any part, no '.' inside a JWT part)"))
+claim("C11", PR, TECH_PR,
+      "Theorems: the issuer as a state machine with every field of the Rust struct computes, from ANY state, what a fresh instance computes "
+      "(C11_issuer_call_is_fresh, C11_issuer_history over arbitrary call sequences incl. failing calls); a holder's result depends only on what "
+      "new() parsed, which every call preserves (C11_holder_*). The run drives sequences of 1..8 calls on one issuer / holder instance against "
+      "fresh instances and the model.",
+      NOTE_PR % ("C11", "the machine of Model/Machines.v restates issue_sd_jwt / create_presentation field by field; tied by the history runs"))
+claim("C15", PR, TECH_PR,
+      "Theorems C15_narrowing / C15_same_digests / C15_chain_holders: a holder built from a presentation (any genuine digest map covering the "
+      "first selection) selects, for a refined selection, exactly the disclosures selecting directly from the issued SD-JWT would, over chains of "
+      "any length; refinement only deselects (C15_incl); verified claims then agree by C01. The run executes chains of up to 4 narrowing steps "
+      "in both formats against direct selection, the verifier and the model.",
+      NOTE_PR % ("C15", "premises as C06"))
